@@ -1,10 +1,13 @@
 package models
 
 import (
+	"bytes"
 	"context"
 	"errors"
+	"math/big"
 
 	sdkmath "cosmossdk.io/math"
+	storetypes "cosmossdk.io/store/types"
 	sdk "github.com/cosmos/cosmos-sdk/types"
 	banktypes "github.com/cosmos/cosmos-sdk/x/bank/types"
 
@@ -13,11 +16,12 @@ import (
 
 // Bank is a fake x/bank keeper honouring the documented contract: a send fails
 // on insufficient funds and otherwise moves exactly the amount; mint/burn move
-// the supply. With Faults set, every fallible call first consults a fresh
-// symbolic fault flag and, when it is raised, fails without any effect.
+// the supply. All balances live in the context's multistore (store
+// "verif-bank"), so cached contexts isolate and revert bank effects exactly as
+// they do for the real bank module. With Faults set, every fallible call first
+// consults a fresh symbolic fault flag and, when raised, fails without effect.
 type Bank struct {
-	bal    map[string]sdkmath.Int
-	supply map[string]sdkmath.Int
+	root   *MultiStore
 	meta   map[string]banktypes.Metadata
 	Faults bool
 	Calls  []string
@@ -25,18 +29,44 @@ type Bank struct {
 
 var ErrInjected = errors.New("injected collaborator failure")
 
-func NewBank() *Bank {
-	return &Bank{bal: map[string]sdkmath.Int{}, supply: map[string]sdkmath.Int{}, meta: map[string]banktypes.Metadata{}}
+var bankKey = storetypes.NewKVStoreKey("verif-bank")
+
+// denom metadata flags live in their own store so balance snapshots ignore them
+var bankMetaKey = storetypes.NewKVStoreKey("verif-bank-meta")
+
+func NewBank(root *MultiStore) *Bank {
+	return &Bank{root: root, meta: map[string]banktypes.Metadata{}}
 }
 
-func accKey(addr sdk.AccAddress, denom string) string { return "a/" + string(addr) + "/" + denom }
-func modKey(name, denom string) string              { return "m/" + name + "/" + denom }
+func accKey(addr sdk.AccAddress, denom string) []byte { return []byte("a/" + string(addr) + "/" + denom) }
+func modKey(name, denom string) []byte              { return []byte("m/" + name + "/" + denom) }
+func supKey(denom string) []byte                    { return []byte("s/" + denom) }
+func metaKey(denom string) []byte                   { return []byte("d/" + denom) }
 
-func (b *Bank) get(k string) sdkmath.Int {
-	if v, ok := b.bal[k]; ok {
-		return v
+func (b *Bank) st(ctx context.Context) storetypes.KVStore {
+	if ctx == nil {
+		return b.root.Store(bankKey.Name())
 	}
-	return sdkmath.ZeroInt()
+	return sdk.UnwrapSDKContext(ctx).MultiStore().GetKVStore(bankKey)
+}
+
+func (b *Bank) mst(ctx context.Context) storetypes.KVStore {
+	if ctx == nil {
+		return b.root.Store(bankMetaKey.Name())
+	}
+	return sdk.UnwrapSDKContext(ctx).MultiStore().GetKVStore(bankMetaKey)
+}
+
+func getInt(st storetypes.KVStore, k []byte) sdkmath.Int {
+	bz := st.Get(k)
+	if bz == nil {
+		return sdkmath.ZeroInt()
+	}
+	return sdkmath.NewIntFromBigInt(new(big.Int).SetBytes(bz))
+}
+
+func setInt(st storetypes.KVStore, k []byte, v sdkmath.Int) {
+	st.Set(k, v.BigInt().FillBytes(make([]byte, 40)))
 }
 
 func (b *Bank) fault(label string) bool {
@@ -44,80 +74,81 @@ func (b *Bank) fault(label string) bool {
 	return b.Faults && sym.Fault(label)
 }
 
-// SetBalance / SetModuleBalance / SetSupply build the pre-state.
-func (b *Bank) SetBalance(addr sdk.AccAddress, denom string, v sdkmath.Int) { b.bal[accKey(addr, denom)] = v }
-func (b *Bank) SetModuleBalance(name, denom string, v sdkmath.Int)         { b.bal[modKey(name, denom)] = v }
-func (b *Bank) SetSupply(denom string, v sdkmath.Int)                      { b.supply[denom] = v }
-func (b *Bank) Balance(addr sdk.AccAddress, denom string) sdkmath.Int      { return b.get(accKey(addr, denom)) }
-func (b *Bank) ModuleBalance(name, denom string) sdkmath.Int               { return b.get(modKey(name, denom)) }
-func (b *Bank) Supply(denom string) sdkmath.Int {
-	if v, ok := b.supply[denom]; ok {
-		return v
-	}
-	return sdkmath.ZeroInt()
+// Pre-state builders and oracle accessors (committed state of the root store).
+func (b *Bank) SetBalance(addr sdk.AccAddress, denom string, v sdkmath.Int) { setInt(b.st(nil), accKey(addr, denom), v) }
+func (b *Bank) SetModuleBalance(name, denom string, v sdkmath.Int)         { setInt(b.st(nil), modKey(name, denom), v) }
+func (b *Bank) SetSupply(denom string, v sdkmath.Int)                      { setInt(b.st(nil), supKey(denom), v) }
+func (b *Bank) Balance(addr sdk.AccAddress, denom string) sdkmath.Int      { return getInt(b.st(nil), accKey(addr, denom)) }
+func (b *Bank) ModuleBalance(name, denom string) sdkmath.Int               { return getInt(b.st(nil), modKey(name, denom)) }
+func (b *Bank) Supply(denom string) sdkmath.Int                            { return getInt(b.st(nil), supKey(denom)) }
+func (b *Bank) SetMeta(denom string) {
+	b.meta[denom] = banktypes.Metadata{Base: denom}
+	b.mst(nil).Set(metaKey(denom), []byte{1})
 }
 
-func (b *Bank) move(from, to func(denom string) string, amt sdk.Coins) error {
+func (b *Bank) move(ctx context.Context, from, to func(denom string) []byte, amt sdk.Coins) error {
+	st := b.st(ctx)
 	// validate first so a failing send has no partial effect (bank sends are atomic)
 	for _, c := range amt {
-		if c.Amount.IsNegative() {
+		if c.Amount.IsNil() || c.Amount.IsNegative() {
 			return errors.New("invalid coins")
 		}
-		if b.get(from(c.Denom)).LT(c.Amount) {
+		if getInt(st, from(c.Denom)).LT(c.Amount) {
 			return errors.New("insufficient funds")
 		}
 	}
 	for _, c := range amt {
-		b.bal[from(c.Denom)] = b.get(from(c.Denom)).Sub(c.Amount)
-		b.bal[to(c.Denom)] = b.get(to(c.Denom)).Add(c.Amount)
+		setInt(st, from(c.Denom), getInt(st, from(c.Denom)).Sub(c.Amount))
+		setInt(st, to(c.Denom), getInt(st, to(c.Denom)).Add(c.Amount))
 	}
 	return nil
 }
 
 func (b *Bank) GetSupply(ctx context.Context, denom string) sdk.Coin {
-	return sdk.Coin{Denom: denom, Amount: b.Supply(denom)}
+	return sdk.Coin{Denom: denom, Amount: getInt(b.st(ctx), supKey(denom))}
 }
 
 func (b *Bank) SendCoinsFromModuleToAccount(ctx context.Context, senderModule string, recipientAddr sdk.AccAddress, amt sdk.Coins) error {
 	if b.fault("bank.SendCoinsFromModuleToAccount") {
 		return ErrInjected
 	}
-	return b.move(func(d string) string { return modKey(senderModule, d) }, func(d string) string { return accKey(recipientAddr, d) }, amt)
+	return b.move(ctx, func(d string) []byte { return modKey(senderModule, d) }, func(d string) []byte { return accKey(recipientAddr, d) }, amt)
 }
 
 func (b *Bank) SendCoinsFromAccountToModule(ctx context.Context, senderAddr sdk.AccAddress, recipientModule string, amt sdk.Coins) error {
 	if b.fault("bank.SendCoinsFromAccountToModule") {
 		return ErrInjected
 	}
-	return b.move(func(d string) string { return accKey(senderAddr, d) }, func(d string) string { return modKey(recipientModule, d) }, amt)
+	return b.move(ctx, func(d string) []byte { return accKey(senderAddr, d) }, func(d string) []byte { return modKey(recipientModule, d) }, amt)
 }
 
 func (b *Bank) SendCoinsFromModuleToModule(ctx context.Context, senderModule, recipientModule string, amt sdk.Coins) error {
 	if b.fault("bank.SendCoinsFromModuleToModule") {
 		return ErrInjected
 	}
-	return b.move(func(d string) string { return modKey(senderModule, d) }, func(d string) string { return modKey(recipientModule, d) }, amt)
+	return b.move(ctx, func(d string) []byte { return modKey(senderModule, d) }, func(d string) []byte { return modKey(recipientModule, d) }, amt)
 }
 
 func (b *Bank) SendCoins(ctx context.Context, from, to sdk.AccAddress, amt sdk.Coins) error {
 	if b.fault("bank.SendCoins") {
 		return ErrInjected
 	}
-	return b.move(func(d string) string { return accKey(from, d) }, func(d string) string { return accKey(to, d) }, amt)
+	return b.move(ctx, func(d string) []byte { return accKey(from, d) }, func(d string) []byte { return accKey(to, d) }, amt)
 }
 
 func (b *Bank) MintCoins(ctx context.Context, name string, amt sdk.Coins) error {
 	if b.fault("bank.MintCoins") {
 		return ErrInjected
 	}
+	st := b.st(ctx)
 	for _, c := range amt {
-		if c.Amount.IsNegative() {
+		if c.Amount.IsNil() || c.Amount.IsNegative() {
 			return errors.New("invalid coins")
 		}
 	}
 	for _, c := range amt {
-		b.bal[modKey(name, c.Denom)] = b.get(modKey(name, c.Denom)).Add(c.Amount)
-		b.supply[c.Denom] = b.Supply(c.Denom).Add(c.Amount)
+		setInt(st, modKey(name, c.Denom), getInt(st, modKey(name, c.Denom)).Add(c.Amount))
+		setInt(st, supKey(c.Denom), getInt(st, supKey(c.Denom)).Add(c.Amount))
 	}
 	return nil
 }
@@ -126,17 +157,18 @@ func (b *Bank) BurnCoins(ctx context.Context, name string, amt sdk.Coins) error 
 	if b.fault("bank.BurnCoins") {
 		return ErrInjected
 	}
+	st := b.st(ctx)
 	for _, c := range amt {
-		if c.Amount.IsNegative() {
+		if c.Amount.IsNil() || c.Amount.IsNegative() {
 			return errors.New("invalid coins")
 		}
-		if b.get(modKey(name, c.Denom)).LT(c.Amount) {
+		if getInt(st, modKey(name, c.Denom)).LT(c.Amount) {
 			return errors.New("insufficient funds")
 		}
 	}
 	for _, c := range amt {
-		b.bal[modKey(name, c.Denom)] = b.get(modKey(name, c.Denom)).Sub(c.Amount)
-		b.supply[c.Denom] = b.Supply(c.Denom).Sub(c.Amount)
+		setInt(st, modKey(name, c.Denom), getInt(st, modKey(name, c.Denom)).Sub(c.Amount))
+		setInt(st, supKey(c.Denom), getInt(st, supKey(c.Denom)).Sub(c.Amount))
 	}
 	return nil
 }
@@ -146,83 +178,67 @@ func (b *Bank) GetAllBalances(ctx context.Context, addr sdk.AccAddress) sdk.Coin
 }
 
 func (b *Bank) GetDenomMetaData(ctx context.Context, denom string) (banktypes.Metadata, bool) {
+	if !b.mst(ctx).Has(metaKey(denom)) {
+		return banktypes.Metadata{}, false
+	}
 	m, ok := b.meta[denom]
-	return m, ok
+	if !ok {
+		m = banktypes.Metadata{Base: denom}
+	}
+	return m, true
 }
 
-func (b *Bank) SetDenomMetaData(ctx context.Context, m banktypes.Metadata) { b.meta[m.Base] = m }
+func (b *Bank) SetDenomMetaData(ctx context.Context, m banktypes.Metadata) {
+	b.meta[m.Base] = m
+	b.mst(ctx).Set(metaKey(m.Base), []byte{1})
+}
 
 func (b *Bank) HasSupply(ctx context.Context, denom string) bool {
-	_, ok := b.supply[denom]
-	return ok
+	return b.st(ctx).Has(supKey(denom))
 }
 
 func (b *Bank) GetBalance(ctx context.Context, addr sdk.AccAddress, denom string) sdk.Coin {
-	return sdk.Coin{Denom: denom, Amount: b.Balance(addr, denom)}
+	return sdk.Coin{Denom: denom, Amount: getInt(b.st(ctx), accKey(addr, denom))}
 }
 
 func (b *Bank) IsSendEnabledCoins(ctx context.Context, coins ...sdk.Coin) error { return nil }
 
-// Snapshot copies balances and supply (math.Int values are immutable).
-type BankSnapshot struct {
-	bal, supply map[string]sdkmath.Int
-}
-
-func (b *Bank) Snapshot() BankSnapshot {
-	s := BankSnapshot{bal: map[string]sdkmath.Int{}, supply: map[string]sdkmath.Int{}}
-	for k, v := range b.bal {
-		s.bal[k] = v
-	}
-	for k, v := range b.supply {
-		s.supply[k] = v
-	}
-	return s
-}
-
-// Unchanged reports whether balances and supply equal the snapshot.
-func (b *Bank) Unchanged(s BankSnapshot) bool {
-	ok := true
-	for k, v := range b.bal {
-		old, found := s.bal[k]
-		if !found {
-			old = sdkmath.ZeroInt()
-		}
-		ok = sym.And(ok, v.Equal(old))
-	}
-	for k, v := range s.bal {
-		if _, found := b.bal[k]; !found {
-			ok = sym.And(ok, v.IsZero())
-		}
-	}
-	for k, v := range b.supply {
-		old, found := s.supply[k]
-		if !found {
-			old = sdkmath.ZeroInt()
-		}
-		ok = sym.And(ok, v.Equal(old))
-	}
-	return ok
-}
-
 func (b *Bank) HasBalance(ctx context.Context, addr sdk.AccAddress, amt sdk.Coin) bool {
-	return b.Balance(addr, amt.Denom).GTE(amt.Amount)
+	return getInt(b.st(ctx), accKey(addr, amt.Denom)).GTE(amt.Amount)
 }
 
 func (b *Bank) SpendableCoins(ctx context.Context, addr sdk.AccAddress) sdk.Coins {
 	panic("models.Bank: SpendableCoins not modelled")
 }
 
-// SetMeta registers bank metadata for a denom (pre-state).
-func (b *Bank) SetMeta(denom string) { b.meta[denom] = banktypes.Metadata{Base: denom} }
+// BankSnapshot is a copy of the committed bank store.
+type BankSnapshot struct{ st *MemStore }
 
-// Restore resets balances and supply to a snapshot (a reverted transaction).
+func (b *Bank) Snapshot() BankSnapshot { return BankSnapshot{st: b.root.Store(bankKey.Name()).Clone()} }
+
+// Unchanged reports whether the committed bank state equals the snapshot.
+// (An absent entry and an explicit zero are different keys; both sides are
+// compared through the listed accessors by callers that need that nuance.)
+func (b *Bank) Unchanged(s BankSnapshot) bool {
+	cur := b.root.Store(bankKey.Name())
+	ok := true
+	// compare as maps with default zero
+	for _, p := range cur.items(nil, nil) {
+		old := s.st.Get(p.k)
+		if old == nil {
+			old = make([]byte, len(p.v))
+		}
+		ok = sym.And(ok, bytes.Equal(old, p.v))
+	}
+	for _, p := range s.st.items(nil, nil) {
+		if !cur.Has(p.k) {
+			ok = sym.And(ok, bytes.Equal(p.v, make([]byte, len(p.v))))
+		}
+	}
+	return ok
+}
+
+// Restore resets the committed bank state to a snapshot.
 func (b *Bank) Restore(s BankSnapshot) {
-	b.bal = map[string]sdkmath.Int{}
-	b.supply = map[string]sdkmath.Int{}
-	for k, v := range s.bal {
-		b.bal[k] = v
-	}
-	for k, v := range s.supply {
-		b.supply[k] = v
-	}
+	b.root.Store(bankKey.Name()).pairs = s.st.Clone().pairs
 }
